@@ -37,7 +37,7 @@ DESIGN_REF = "DESIGN.md section 4, C07"
 
 GRAMMAR = r"""
 Model: elems*=Elem;
-Elem: Group | A | B | S | Other | RefBase | RefA | RefO | RefL | RefLeft | RefRight;
+Elem: Group | A | B | S | Other | Reg | RefBase | RefA | RefO | RefL | RefLeft | RefRight | RefReg;
 Group: 'group' name=ID '{' elems*=Elem '}';
 Base: Left | Right;
 Left: A | S;
@@ -47,6 +47,8 @@ B: 'b' name=ID;
 S: 's' name=ID;
 RefLeft: 'refleft' r=[Left];
 RefRight: 'refright' r=[Right];
+Reg: 'reg' name=INT;
+RefReg: 'refreg' r=[Reg|INT];
 Other: 'other' name=ID;
 RefBase: 'refbase' r=[Base];
 RefA: 'refa' r=[A];
@@ -57,7 +59,8 @@ Comment: /\/\/.*?$/ | /\/\*(.|\n)*?\*\//;
 NAMES = ["x", "y", "z", "w"]
 REFNAMES = NAMES + ["q"]
 # Base is the top of a diamond: S is reachable through Left and through Right
-CONFORMS = {"Base": {"A", "B", "S"}, "Left": {"A", "S"}, "Right": {"S", "B"}, "A": {"A"}, "Other": {"Other"}}
+# Reg objects are named by integers (0 is a falsy name)
+CONFORMS = {"Reg": {"Reg"}, "Base": {"A", "B", "S"}, "Left": {"A", "S"}, "Right": {"S", "B"}, "A": {"A"}, "Other": {"Other"}}
 
 
 def elems(depth):
@@ -67,6 +70,8 @@ def elems(depth):
     rname = st.integers(0, 16)
     leaf = st.one_of(
         st.tuples(st.sampled_from(["A", "B", "Other", "A", "B", "S"]), name).map(lambda t: {"k": t[0], "name": t[1]}),
+        st.sampled_from(["0", "0", "1", "7"]).map(lambda n: {"k": "Reg", "name": n}),
+        st.sampled_from(["0", "0", "1", "7", "9"]).map(lambda n: {"k": "RefReg", "num": n}),
         st.tuples(st.sampled_from(["RefBase", "RefA", "RefO", "RefBase", "RefLeft", "RefRight"]), rname).map(lambda t: {"k": t[0], "ref": t[1]}),
         st.lists(rname, min_size=1, max_size=3).map(lambda l: {"k": "RefL", "refs": l}),
     )
@@ -92,7 +97,7 @@ def write(case):
     present = []
 
     def collect(e):
-        if "name" in e:
+        if "name" in e and e["k"] != "Reg":
             present.append(e["name"])
         for c in e.get("elems", []):
             collect(c)
@@ -119,6 +124,14 @@ def write(case):
             w.tok(k.lower())
             w.tok(e["name"])
             objs.append((path, k, e["name"]))
+        elif k == "Reg":
+            w.tok("reg")
+            w.tok(e["name"])
+            objs.append((path, "Reg", e["name"]))
+        elif k == "RefReg":
+            w.tok("refreg")
+            off = w.tok(e["num"])
+            refs.append((path, "Reg", e["num"], "r", None, off))
         elif k == "RefL":
             w.tok("refs")
             for j, n in enumerate(e["refs"]):
